@@ -11,9 +11,9 @@ from . import c01, c02
 from .. import common
 from ..schedlib import model_request, run_impl
 
-MODULES = sc.MODULES
+MODULES = sc.MODULES + ["Props.C02", "Props.C03Run", "Props.C05Run", "Props.C04Run"]
 GEN_OBLIGATIONS = sc.GEN_OBLIGATIONS
-THEOREM_DEPS = []
+THEOREM_DEPS = ["C04Run"]
 
 
 def oracle(spec, impl):
